@@ -16,13 +16,14 @@ import (
 // Item has a composite primary key that contains the shard column, so that
 // UpdateRow / DeleteRow can comply with a shard limit at all.
 type Item struct {
-	OrgId int64 `sql:",primary"`
-	Id    int64 `sql:",primary"`
-	Name  string
-	Qty   int64
+	OrgId  int64  `sql:",primary"`
+	Region string `sql:",primary"`
+	Id     int64  `sql:",primary"`
+	Name   string
+	Qty    int64
 }
 
-var itemCols = []string{"org_id", "id", "name", "qty"}
+var itemCols = []string{"org_id", "region", "id", "name", "qty"}
 
 // callInfo travels in the context; database/sql hands the context to the
 // driver, which attributes every statement to the call that issued it.
@@ -39,10 +40,19 @@ type callInfo struct {
 func limitsBody(c *runner.Ctx) {
 	d := newMDB()
 	d.seqFn = simrt.Seq
-	t := d.addTable("items", itemCols, []string{"org_id", "id"})
+	t := d.addTable("items", itemCols, []string{"org_id", "region", "id"})
 	for i := 0; i < 6; i++ {
-		t.rows = append(t.rows, mrow{"org_id": int64(1 + i%3), "id": int64(i + 1), "name": fmt.Sprintf("n%d", i), "qty": int64(i)})
+		t.rows = append(t.rows, mrow{"org_id": int64(1 + i%3), "region": "eu", "id": int64(i + 1), "name": fmt.Sprintf("n%d", i), "qty": int64(i)})
 	}
+	// a limit may name two columns: org_id and region (every row is in "eu")
+	twoCol := c.Choose(3, "two-column-limit") == 1
+	limitOf := func(org int64) sqlgen.Filter {
+		if twoCol {
+			return sqlgen.Filter{"org_id": org, "region": "eu"}
+		}
+		return sqlgen.Filter{"org_id": org}
+	}
+	regionOK := func(v interface{}) bool { s, ok := v.(string); return ok && s == "eu" }
 	schema := sqlgen.NewSchema()
 	schema.MustRegisterType("items", sqlgen.UniqueId, Item{})
 	conn := sql.OpenDB(mconnector{d})
@@ -89,6 +99,17 @@ func limitsBody(c *runner.Ctx) {
 					c.Probe("disjunct-with-contradictory-org-ids")
 					continue
 				}
+				if twoCol && (ci == nil || ci.verdict != "unlimited") {
+					regionBound := false
+					for _, a := range disj {
+						if a.col == "region" && (a.op == "eq" || a.op == "is") && regionOK(a.vals[0]) {
+							regionBound = true
+						}
+					}
+					if !regionBound {
+						c.Violate("unconfined-"+strings.ToLower(st.kind)+"/second-limit-column", "%s: a disjunct of the WHERE clause does not confine region to the limit's value: %s %v", who, st.sql, st.args)
+					}
+				}
 				switch {
 				case !bound:
 					c.Violate("unconfined-"+strings.ToLower(st.kind), "%s: a disjunct of the WHERE clause does not filter on org_id: %s %v", who, st.sql, st.args)
@@ -101,13 +122,31 @@ func limitsBody(c *runner.Ctx) {
 				}
 			}
 		case "INSERT", "UPSERT", "UPDATE":
-			oi := -1
+			oi, ri := -1, -1
 			for i, col := range st.cols {
 				if col == "org_id" {
 					oi = i
 				}
+				if col == "region" {
+					ri = i
+				}
 			}
 			for _, tuple := range st.rows {
+				if twoCol {
+					ok := ri >= 0 && regionOK(tuple[ri])
+					if st.kind == "UPDATE" && !ok {
+						for _, disj := range st.where.dnf() {
+							for _, a := range disj {
+								if a.col == "region" && regionOK(a.vals[0]) {
+									ok = true
+								}
+							}
+						}
+					}
+					if !ok {
+						c.Violate("foreign-shard-"+strings.ToLower(st.kind)+"/second-limit-column", "%s: the written row is not confined to the limit's region: %s %v", who, st.sql, st.args)
+					}
+				}
 				if st.kind == "UPDATE" {
 					// the shard column may be in SET or in WHERE
 					ok := false
@@ -157,7 +196,7 @@ func limitsBody(c *runner.Ctx) {
 			// a shard limit, then a dynamic limit that restricts nothing itself (its
 			// callback returns no filter): the shard limit must survive
 			h.dyn = true
-			h.db, err = base.WithShardLimit(sqlgen.Filter{"org_id": org})
+			h.db, err = base.WithShardLimit(limitOf(org))
 			if err == nil {
 				h.db, err = h.db.WithDynamicLimit(sqlgen.DynamicLimit{
 					GetLimitFilter:        func(ctx context.Context, table string) sqlgen.Filter { return nil },
@@ -165,19 +204,19 @@ func limitsBody(c *runner.Ctx) {
 				})
 			}
 		case 0:
-			h.db, err = base.WithShardLimit(sqlgen.Filter{"org_id": org})
+			h.db, err = base.WithShardLimit(limitOf(org))
 		case 1:
 			h.dyn = true
 			h.db, err = base.WithDynamicLimit(sqlgen.DynamicLimit{
-				GetLimitFilter:        func(ctx context.Context, table string) sqlgen.Filter { return sqlgen.Filter{"org_id": org} },
+				GetLimitFilter:        func(ctx context.Context, table string) sqlgen.Filter { return limitOf(org) },
 				ShouldContinueOnError: func(err error, table string) bool { c.Fault("dynamic-limit-reject"); return false },
 			})
 		default:
 			h.dyn = true
-			h.db, err = base.WithShardLimit(sqlgen.Filter{"org_id": org})
+			h.db, err = base.WithShardLimit(limitOf(org))
 			if err == nil {
 				h.db, err = h.db.WithDynamicLimit(sqlgen.DynamicLimit{
-					GetLimitFilter:        func(ctx context.Context, table string) sqlgen.Filter { return sqlgen.Filter{"org_id": org} },
+					GetLimitFilter:        func(ctx context.Context, table string) sqlgen.Filter { return limitOf(org) },
 					ShouldContinueOnError: func(err error, table string) bool { c.Fault("dynamic-limit-reject"); return false },
 				})
 			}
@@ -205,7 +244,13 @@ func limitsBody(c *runner.Ctx) {
 		other := h.org%3 + 1
 		var orgVal interface{} = h.org
 		var rowOrg = h.org
-		violateHow := c.Choose(3, "violate-how")
+		var regionVal interface{} = "eu"
+		rowRegion := "eu"
+		nHow := 3
+		if twoCol {
+			nHow = 5
+		}
+		violateHow := c.Choose(nHow, "violate-how")
 		switch ci.verdict {
 		case "violate":
 			switch violateHow {
@@ -213,12 +258,20 @@ func limitsBody(c *runner.Ctx) {
 				orgVal = other // another shard's value
 			case 1:
 				orgVal = nil // no org_id in the filter at all
-			default:
+			case 2:
 				// another shard's value as the database driver would also accept
 				// it: bytes (MySQL compares '2' with the integer column)
 				orgVal = []byte(fmt.Sprint(other))
+			case 3:
+				// only the second limit column is wrong
+				regionVal = "us"
+			default:
+				regionVal = nil // the second limit column is missing from the filter
 			}
 			rowOrg = other
+			if violateHow >= 3 {
+				rowOrg, rowRegion = h.org, "us"
+			}
 		case "either":
 			orgVal = int(h.org) // right value, different Go type
 		}
@@ -233,6 +286,9 @@ func limitsBody(c *runner.Ctx) {
 		filter := sqlgen.Filter{}
 		if orgVal != nil {
 			filter["org_id"] = orgVal
+		}
+		if twoCol && regionVal != nil {
+			filter["region"] = regionVal
 		}
 		switch c.Choose(3, "filter-extra") {
 		case 1:
@@ -308,23 +364,23 @@ func limitsBody(c *runner.Ctx) {
 			case "Count":
 				_, err = h.db.Count(ctx, &Item{}, filter)
 			case "InsertRow":
-				_, err = h.db.InsertRow(ctx, &Item{OrgId: rowOrg, Id: id, Name: "new"})
+				_, err = h.db.InsertRow(ctx, &Item{OrgId: rowOrg, Region: rowRegion, Id: id, Name: "new"})
 			case "UpsertRow":
-				_, err = h.db.UpsertRow(ctx, &Item{OrgId: rowOrg, Id: existing, Name: "up"})
+				_, err = h.db.UpsertRow(ctx, &Item{OrgId: rowOrg, Region: rowRegion, Id: existing, Name: "up"})
 			case "UpdateRow":
-				err = h.db.UpdateRow(ctx, &Item{OrgId: rowOrg, Id: existing, Name: "upd", Qty: 9})
+				err = h.db.UpdateRow(ctx, &Item{OrgId: rowOrg, Region: rowRegion, Id: existing, Name: "upd", Qty: 9})
 			case "DeleteRow":
-				err = h.db.DeleteRow(ctx, &Item{OrgId: rowOrg, Id: existing})
+				err = h.db.DeleteRow(ctx, &Item{OrgId: rowOrg, Region: rowRegion, Id: existing})
 			case "InsertRows", "UpsertRows":
 				// three rows, the non-complying one (if any) at a drawn position
 				bad := c.Choose(3, "bad-row")
 				var batchRows []*Item
 				for k := 0; k < 3; k++ {
-					o := h.org
+					o, reg := h.org, "eu"
 					if ci.verdict == "violate" && k == bad {
-						o = other
+						o, reg = rowOrg, rowRegion
 					}
-					batchRows = append(batchRows, &Item{OrgId: o, Id: id*10 + int64(k), Name: "multi"})
+					batchRows = append(batchRows, &Item{OrgId: o, Region: reg, Id: id*10 + int64(k), Name: "multi"})
 				}
 				chunk := 1 + c.Choose(3, "chunk")
 				if ci.op == "InsertRows" {
@@ -348,7 +404,7 @@ func limitsBody(c *runner.Ctx) {
 				}
 			}
 			for _, it := range rows {
-				if it != nil && it.OrgId != h.org {
+				if it != nil && (it.OrgId != h.org || (twoCol && it.Region != "eu")) {
 					c.Violate("row-from-foreign-shard", "call %d (%s) on a handle limited to org_id=%d received row %+v", ci.idx, ci.op, h.org, *it)
 				}
 			}
